@@ -14,6 +14,15 @@ def bounded_inputs(run, n, count):
         yield d
 
 
+def scaled_inputs(run, n, count):
+    """The same games times a power of two (exact in floats); the tolerance floor follows the scale ("__unit__")."""
+    for k, d in enumerate(bounded_inputs(run, n, count)):
+        sc = 2.0 ** (-20, -30, -40, 20)[k % 4]
+        e = {key: v * sc for key, v in d.items()}
+        e["__unit__"] = sc
+        yield e
+
+
 def weights_check(run, upto):
     """Exhaustive over the player counts a float64 factorial can express: the contribution coefficients of the real helper
     are s! (n-1-s)! for every n (exact Python integers as the reference; correctly rounded doubles expected)."""
@@ -89,6 +98,9 @@ def main(run):
         cnt = 3 if run.tier == "quick" else 6
         run.bounded_run(f"float[n={n}]", S.sc_shapley, {"n": n}, bounded_inputs(run, n, cnt), tol=1e-9,
                         bound=f"{cnt} seeded games, the n! orderings enumerated by the spec, relative tolerance 1e-9")
+    for n in (4, 5):
+        run.bounded_run(f"float.scaled[n={n}]", S.sc_shapley, {"n": n}, scaled_inputs(run, n, 8), tol=1e-9,
+                        bound="8 seeded games scaled by 2^-20, 2^-30, 2^-40, 2^20; tolerance 1e-9 relative to the scale")
     weights_check(run, 100)
     if run.tier != "quick":
         large_n_check(run, 22)
